@@ -368,7 +368,8 @@ class Ctx:
         cmd.append(module + ".tla")
         e = dict(os.environ)
         e["TMPDIR"] = od                      # the launcher creates its SANY temp dir there (removed with the scratch)
-        e.pop("JAVA_TOOL_OPTIONS", None)      # TLC tuning of the checks (C1-only JIT) slows the SMT encoder down
+        # short JVM runs: C1-only JIT measured at 4.4 s CPU per obligation instead of 12 s
+        e.setdefault("JAVA_TOOL_OPTIONS", "-XX:TieredStopAtLevel=1 -XX:ParallelGCThreads=2")
         what = "%s init=%s inv=%s length=%d%s" % (module, init, inv, length, " cinit=" + cinit if cinit else "")
         t = time.time()
         try:
